@@ -311,6 +311,10 @@ type LookupCacheCase struct {
 	SlowCall int      `json:"slow_call"` // this cache Write call (1-based, counted after construction) is held ...
 	HoldMs   int      `json:"hold_ms"`   // ... for this long (real time)
 	GapUs    int      `json:"gap_us"`    // pause between starting the lookups
+	// Refresh: while the lookups are under way the declared secret gets a new active version and the
+	// program calls Refresh - a poll's cache write and the lookups' cache writes must not overtake
+	// one another: the last document holds the polled version AND every looked-up secret
+	Refresh bool `json:"refresh,omitempty"`
 }
 
 // lcVal is what the service serves for an undeclared name: "w" is a secret whose value is empty (the
@@ -364,6 +368,16 @@ func runC16LookupCache(t *testing.T, c LookupCacheCase) (*h.Violation, h.Info) {
 			time.Sleep(time.Duration(c.GapUs) * time.Microsecond)
 		}
 	}
+	dWant := "dv"
+	if c.Refresh {
+		svc.Set("d", 2, []byte("dv-2"))
+		if err := st.Refresh(context.Background()); err == nil {
+			dWant = "dv-2"
+			info.Class("a-refresh-installs-while-lookups-write-the-cache")
+		} else {
+			dWant = ""
+		}
+	}
 	wg.Wait()
 	cache.OnWrite = nil
 	distinct := map[string]bool{}
@@ -388,8 +402,18 @@ func runC16LookupCache(t *testing.T, c LookupCacheCase) (*h.Violation, h.Info) {
 		return h.V("cached-after-lookup", "cache document: %v", err), info
 	}
 	for _, n := range append([]string{"d"}, want...) {
-		if e, ok := doc[n]; !ok || string(e.Value) != map[bool]string{true: "dv", false: lcVal(n)}[n == "d"] {
+		wantVal := lcVal(n)
+		if n == "d" {
+			if dWant == "" {
+				continue // (the Refresh reported an error: which version the store holds is open)
+			}
+			wantVal = dWant
+		}
+		if e, ok := doc[n]; !ok || string(e.Value) != wantVal {
 			st.Close()
+			if n == "d" {
+				return h.V("cached-after-lookup", "a Refresh that installed a new version of the declared secret returned nil while lookups of %v were writing the cache; the document that was written last holds %q for it, the store serves %q: %s", want, e.Value, wantVal, cache.Data()), info
+			}
 			return h.V("cached-after-lookup", "every lookup of %v returned a working handle, but the cache document that was written last lacks %q (or holds other bytes): %s", want, n, cache.Data()), info
 		}
 	}
@@ -421,6 +445,7 @@ var c16lookupCache = &h.Campaign[LookupCacheCase]{
 			SlowCall: rapid.SampledFrom([]int{1, 1, 1, 2, 3}).Draw(rt, "slow"),
 			HoldMs:   rapid.SampledFrom([]int{1, 3, 8}).Draw(rt, "hold"),
 			GapUs:    rapid.SampledFrom([]int{0, 50, 500}).Draw(rt, "gap"),
+			Refresh:  rapid.Bool().Draw(rt, "refresh"),
 		}
 	},
 	Run: runC16LookupCache,
